@@ -1,2 +1,175 @@
-from registry import H, M, prop
+"""Property -> harness lists. Time caps are ~3x the time measured on the unchanged tree
+under 16-way parallel load; memory caps are address-space limits of the cbmc process."""
+from registry import H, M, prop, NOT_CLAIMED
 
+# shape -> (byte bound N of the read-only families, cost class)
+SIZED = ["S_U16", "S_BOOL", "S_BOOL3", "S_SB", "S_SB2", "S_SS1", "S_SE1", "S_CE", "S_SE16", "S_PS", "S_PE"]
+RO_BOUND = {
+    "S_U16": 4, "S_BOOL": 3, "S_BOOL3": 5, "S_SB": 8, "S_SB2": 14, "S_SS1": 10, "S_SE1": 10, "S_CE": 3,
+    "S_SE16": 6, "S_PS": 9, "S_PE": 10, "V_U8": 8, "V_U8L32": 10, "V_U16": 10, "V_BOOL": 8, "V_SB": 14,
+    "V_A3": 12, "V_P": 10, "STR8": 5, "STR16": 6, "STRP": 6, "X_U8": 6, "X_B": 6, "X_U16": 8, "X_V": 6,
+    "X_V16": 8, "X_S": 5, "X_P": 8, "U_S1": 12, "U_S2": 14, "U_S3": 6, "U_S4": 7, "U_S5": 12, "U_PS": 10,
+    "U_E1": 16, "U_E2": 8, "U_E3": 12, "U_E4": 14, "U_PE": 10,
+}
+SHAPE_DOC = {
+    "S_U16": "u16", "S_BOOL": "Bool", "S_BOOL3": "[Bool;3]", "S_SB": "struct{Bool,u16,Bool}", "S_SB2": "[struct{Bool,u16,Bool};2]",
+    "S_SS1": "struct{u8,u16,u32}", "S_SE1": "enum(u8){A,B(u16,u8),C{Bool,u16},D(u32)}", "S_CE": "C-like enum", "S_SE16": "enum(tag u16){A,B(Bool)}",
+    "S_PS": "portable struct{u8,le::U16,be::U32}", "S_PE": "portable enum{A,B(le::U16,Bool),C(PS)}",
+    "V_U8": "FlatVec<u8,u8>", "V_U8L32": "FlatVec<u8,u32>", "V_U16": "FlatVec<u16,u8>", "V_BOOL": "FlatVec<Bool,u8>",
+    "V_SB": "FlatVec<struct{Bool,u16,Bool},u8>", "V_A3": "FlatVec<[u8;3],u16>", "V_P": "FlatVec<le::U16,le::U16>",
+    "STR8": "FlatString<u8>", "STR16": "FlatString<u16>", "STRP": "FlatString<le::U16>",
+    "X_U8": "FlexVec<u8,u8>", "X_B": "FlexVec<Bool,u8>", "X_U16": "FlexVec<u16,u16>", "X_V": "FlexVec<FlatVec<u8,u8>,u8>",
+    "X_V16": "FlexVec<FlatVec<u8,u16>,u16>", "X_S": "FlexVec<FlatString<u8>,u8>", "X_P": "FlexVec<le::U16,le::U16>",
+    "U_S1": "unsized struct{u8,u16,FlatVec<u8,u8>}", "U_S2": "unsized struct{u32,FlatVec<u8,u8>}", "U_S3": "unsized struct{Bool,FlatString<u8>}",
+    "U_S4": "unsized struct{u8,FlexVec<u8,u8>}", "U_S5": "unsized struct{u16,FlatVec<u16,u8>}", "U_PS": "portable unsized struct{le::U16,FlatVec<le::U16,le::U16>}",
+    "U_E1": "unsized enum{A,B(u8,u16),C{u32,FlatVec<u8,u16>}} (the test suite's)", "U_E2": "unsized enum{A,B(Bool),C(FlatVec<u8,u8>)}",
+    "U_E3": "unsized enum(tag u16){A,B(Bool,u16),C{u8,FlatVec<u8,u8>}}", "U_E4": "unsized enum{A,S(unsized struct)}",
+    "U_PE": "portable unsized enum{A,B(le::U16),C(portable unsized struct)}",
+}
+# shapes whose harnesses cost <= ~150 s: quick tier
+RO_QUICK = SIZED + ["V_U8", "V_U8L32", "V_U16", "V_BOOL", "V_P", "V_A3", "STR8", "U_S1", "U_S2", "U_S5", "U_PS",
+                    "U_E1", "U_E2", "U_E3", "U_E4", "U_PE", "X_U8", "X_U16"]
+RO_THOROUGH = ["V_SB", "STR16", "STRP", "X_B", "X_V", "X_P", "U_S3", "U_S4", "X_V16", "X_S"]
+STRINGY = {"STR8", "STR16", "STRP", "U_S3", "X_S"}
+CONSTRAINED = {"S_BOOL", "S_BOOL3", "S_SB", "S_SB2", "S_SE1", "S_CE", "S_SE16", "S_PE", "V_BOOL", "V_SB", "STR8", "STR16",
+               "STRP", "X_B", "X_U16", "X_V16", "X_S", "U_S3", "U_E1", "U_E2", "U_E3", "U_E4", "U_PE"}
+SLOW = {"X_U8": 900, "X_U16": 1100, "X_B": 1100, "X_V": 2700, "X_P": 1200, "U_S4": 900, "STR16": 900, "STRP": 900,
+        "U_S3": 900, "V_SB": 900, "X_V16": 3000, "X_S": 3000, "STR8": 600, "V_A3": 600}
+BIGMEM = {"X_V": 14, "X_V16": 16, "X_S": 16, "V_SB": 12, "X_P": 10, "X_U16": 10, "X_B": 10}
+
+
+def ro(family, what, shapes_quick=None, shapes_thorough=None, only=None):
+    out = []
+    for tier, shapes in (("quick", shapes_quick if shapes_quick is not None else RO_QUICK),
+                         ("thorough", shapes_thorough if shapes_thorough is not None else RO_THOROUGH)):
+        for sh in shapes:
+            if only is not None and sh not in only:
+                continue
+            name = "ro::%s::%s" % (sh, family)
+            stub = False
+            if family == "total" and sh in STRINGY:
+                name = "ro::%s_s::total" % sh
+                stub = True
+            out.append(H(name, SLOW.get(sh, 400), BIGMEM.get(sh, 8),
+                         "all byte strings of length <= %d%s of %s" % (
+                             RO_BOUND[sh] + (1 if stub else 0), ", every address residue modulo the alignment" if family in ("total", "accept") else "", SHAPE_DOC[sh]),
+                         what, tier=tier, stubbing=stub,
+                         assumes=(["core::str::from_utf8 replaced by the reference UTF-8 automaton (Kani stub); utf8::ref_vs_core ties the automaton to core's validator"] if stub else [])))
+    return out
+
+
+OUT_RO = ["slices longer than the per-shape byte bound (3..16 bytes)", "type shapes outside the catalogue of harness/src/shapes.rs (39 shapes)",
+          "element types usize/isize/u128/f32 beyond the listed representatives"]
+
+prop("C01", "validation is total",
+     "For each catalogue shape, validate/from_bytes/from_mut_bytes are run on an exact-size heap object holding an arbitrary byte string of every length up to the bound at every address residue; CBMC decides every panic, overflow, division, pointer and unwinding check of the compiled library code.",
+     OUT_RO,
+     ro("total", "validate/from_bytes/from_mut_bytes return Ok or Err, agree with each other, no panic, no access outside the slice")
+     + [H("ro::zst::total", 200, 6, "all slices <= 4 bytes, stored count <= 5", "FlatVec<(), u8>: zero-sized items do not divide by zero")]
+     + [H("utf8::ref_vs_core_4", 300, 6, "all byte strings <= 4 bytes", "reference UTF-8 automaton == core::str::from_utf8 (validity and valid_up_to)"),
+        H("utf8::ref_vs_core_6", 600, 8, "all byte strings <= 6 bytes", "reference UTF-8 automaton == core::str::from_utf8", tier="thorough")])
+
+prop("C02", "from_bytes accepts exactly well-formed encodings, consistent view",
+     "from_bytes(s).is_ok() is compared with an independent reference decoder of the documented format for every byte string up to the bound at every address residue; on success the mapped value's accessors, len<=capacity, as_bytes re-validation and content are compared with the reference decoding.",
+     OUT_RO,
+     ro("accept", "from_bytes Ok <=> reference well-formed; accessors inside the slice; len<=capacity; own bytes validate; content == reference decoding")
+     + ro("wrap", "FlatWrap::from_wrapped_bytes agrees with from_bytes", shapes_quick=["V_U8", "U_S1", "U_E2", "S_SE1"], shapes_thorough=["U_E1", "X_U8", "STR8"]))
+
+prop("C05", "size() is the exact extent",
+     "From every well-formed image up to the bound: size() equals the reference extent, is <= the mapped length, and re-mapping the first size() bytes yields the same content and size(). After mutations: the step harnesses of C11/C12 assert the same on their post-states.",
+     OUT_RO + ["sequences of mutations are covered one step at a time from an arbitrary valid state (C11, C12, C18 harnesses)"],
+     ro("size", "size() == reference extent <= n; from_bytes(&s[..size()]) gives the same content and size()"))
+
+prop("C06", "framing contract",
+     "For every tight valid message m (reference extent == length) up to the bound: every proper prefix is rejected as InsufficientSize or, only when nothing but padding is missing, accepted with the same content; m followed by arbitrary bytes validates with the same content and size().",
+     OUT_RO,
+     ro("frame", "prefix => InsufficientSize or same content (padding only); message ++ arbitrary suffix => same content and size()"))
+
+prop("C19", "content errors are reported at the byte that is wrong",
+     "For every byte string up to the bound: if validate reports InvalidData/InvalidEnumTag the position is in the reference decoder's set of offending bytes; a complete-but-malformed image is never reported as InsufficientSize.",
+     OUT_RO + ["images with more than one kind of defect: any offending byte is accepted"],
+     ro("errpos", "error position names an offending byte (Bool, tag, UTF-8) at any nesting depth", only=CONSTRAINED))
+
+# ---------------------------------------------------------------- constructing families
+EM_COST = {"S_U16": 60, "S_SB": 60, "S_SS1": 60, "S_SE1": 90, "S_CE": 60, "S_SE16": 60, "S_PS": 60, "S_PE": 90,
+           "V_U8": 300, "V_U8L32": 400, "V_U16": 400, "V_SB": 900, "V_A3": 600, "V_P": 400, "STR8": 600, "STR16": 900,
+           "STRP": 900, "X_U8": 900, "X_U16": 1500, "X_V": 2400, "U_S1": 600, "U_S2": 600, "U_S3": 900, "U_S4": 1200,
+           "U_PS": 600, "U_E1": 900, "U_E2": 400, "U_E3": 600, "U_E4": 800, "U_PE": 800}
+EM_QUICK = ["S_U16", "S_SB", "S_SS1", "S_SE1", "S_CE", "S_SE16", "S_PS", "S_PE", "V_U8", "V_U8L32", "V_U16", "V_A3", "V_P",
+            "STR8", "U_S1", "U_S2", "U_PS", "U_E1", "U_E2", "U_E3", "U_E4", "U_PE", "X_U8"]
+EM_THOROUGH = ["V_SB", "STR16", "STRP", "X_U16", "X_V", "U_S3", "U_S4"]
+EM_BOUND = {"S_U16": 5, "S_SB": 9, "S_SS1": 12, "S_SE1": 12, "S_CE": 3, "S_SE16": 7, "S_PS": 9, "S_PE": 10, "V_U8": 6,
+            "V_U8L32": 12, "V_U16": 10, "V_SB": 16, "V_A3": 11, "V_P": 10, "STR8": 6, "STR16": 8, "STRP": 7, "X_U8": 8,
+            "X_U16": 14, "X_V": 10, "U_S1": 11, "U_S2": 13, "U_S3": 7, "U_S4": 9, "U_PS": 12, "U_E1": 20, "U_E2": 7,
+            "U_E3": 10, "U_E4": 13, "U_PE": 13}
+
+
+def em(family, what, quick=None, thorough=None):
+    out = []
+    for tier, shapes in (("quick", EM_QUICK if quick is None else quick), ("thorough", EM_THOROUGH if thorough is None else thorough)):
+        for sh in shapes:
+            out.append(H("em::%s::%s" % (sh, family), EM_COST[sh] if family == "emplace" else max(300, EM_COST[sh] // 2), 10 if sh.startswith("X_") or sh in ("V_SB", "U_E1") else 8,
+                         "every value (all variants, container fill 0..3 items, scalars full range), every buffer length 0..%d, every address residue, arbitrary prior buffer contents; %s" % (EM_BOUND[sh], SHAPE_DOC[sh]),
+                         what, tier=tier))
+    return out
+
+
+ASG = {"V_U8_a": ("V_U8", 5, 400), "V_A3_a": ("V_A3", 9, 600), "STR8_a": ("STR8", 5, 900), "X_U8_a": ("X_U8", 6, 1500),
+       "U_S1_a": ("U_S1", 10, 900), "U_S2_a": ("U_S2", 12, 900), "U_S3_a": ("U_S3", 6, 1500), "U_E1_a": ("U_E1", 16, 1500),
+       "U_E2_a": ("U_E2", 6, 600), "U_E3_a": ("U_E3", 10, 900), "U_E4_a": ("U_E4", 12, 1200), "U_PE_a": ("U_PE", 9, 900)}
+ASG_QUICK = ["V_U8_a", "V_A3_a", "U_S1_a", "U_E1_a", "U_E2_a", "U_E3_a", "U_PE_a"]
+
+
+def asg(what):
+    out = []
+    for m, (sh, n, t) in ASG.items():
+        out.append(H("em::%s::assign" % m, t, 12, "every valid target image <= %d bytes x every replacement value (all variants, fill 0..3); %s" % (n, SHAPE_DOC[sh]),
+                     what, tier="quick" if m in ASG_QUICK else "thorough"))
+    return out
+
+
+DS = ["S_U16", "S_SB", "S_SS1", "S_SE1", "S_CE", "S_SE16", "S_PS", "S_PE"]
+OUT_EM = ["container contents longer than 3 items / strings longer than 3 bytes", "buffers longer than the per-shape bound",
+          "emplacers that panic by contract (NeverEmplacer)", "the flex_vec! macro (names a non-existent flex::FromIter, cannot be expanded)"]
+
+prop("C03", "emplace then read back; bytes validate; image byte-exact",
+     "For every abstract value and every buffer (length, residue, garbage) up to the bound new_in_place is run through the real emplacers (literals, generated *Init types, flat_vec!, vec::FromIterator, string::FromStr, flex::FromIterator, nested); on success the accessors, validate, size() and the reference decoding of the resulting bytes (documented offsets and byte order) must equal the specified content.",
+     OUT_EM,
+     em("emplace", "new_in_place: reads back the specified content; bytes validate; image == documented encoding; size() == extent"))
+
+prop("C15", "emplacement into any buffer: right error or success",
+     "Same harnesses as C03: for every buffer length 0..bound and every address residue the result must be BadAlign (misaligned), InsufficientSize (aligned but smaller than the reference need) or Ok (then C03's post-conditions); no panic. default_in_place and FlatWrap::default_in_place are covered by the default family.",
+     OUT_EM,
+     em("emplace", "misaligned => BadAlign; too small => InsufficientSize; otherwise Ok; never a panic")
+     + em("default", "default_in_place: too small => InsufficientSize; otherwise Ok", quick=["V_U8", "U_S1", "U_E1", "X_U8", "S_SE1"], thorough=["STR8", "U_E3", "U_S4"]))
+
+prop("C20", "default_in_place produces the documented default state",
+     "For every buffer length up to the bound and arbitrary prior contents default_in_place yields the documented default (reference decoding of the bytes and accessor view), with minimal size(), independent of the prior contents (the post-condition is a constant); for sized shapes it equals Default::default() emplaced as a literal; FlatWrap::default_in_place agrees.",
+     ["buffers longer than the per-shape bound", "type definitions outside the catalogue"],
+     em("default", "default_in_place == documented default; validates; minimal size(); prior contents irrelevant")
+     + [H("em::%s_d::default_sized" % sh, 200, 6, "arbitrary prior contents; " + SHAPE_DOC[sh], "default_in_place == Default::default() for the sized shape") for sh in DS])
+
+prop("C18", "a failed assign_in_place leaves a valid value",
+     "From every valid target image up to the bound and every replacement value: if assign_in_place fails the bytes still validate, the value can be observed, measured and assigned again without panic, and when the variant's fixed part does not fit (the size check) the decoded content is unchanged; no byte outside the target's slice changes.",
+     ["targets longer than the per-shape bound", "replacement contents longer than 3 items",
+      "'unchanged' is required only when the refusal comes from the type's own size check; a nested emplacer that fails after partial construction (e.g. FromIterator running out of capacity) must leave a valid value, not the old one"],
+     asg("assign_in_place Err => still valid, inspectable, re-assignable; unchanged if the variant does not fit"))
+
+prop("C14", "in-place mutation stays inside the value",
+     "Every constructing and mutating harness keeps the slice inside a larger symbolic array and asserts that all bytes outside the slice are unchanged (canaries), for successful and failing operations alike; CBMC's pointer checks flag writes past the enclosing object. Sibling-field preservation follows from the content equalities asserted after each step.",
+     ["buffers longer than the per-shape bound", "sequences are covered one operation at a time from an arbitrary valid state"],
+     em("emplace", "canaries outside [k, k+n) unchanged after new_in_place (Ok or Err)", quick=["V_U8", "U_S1", "U_E1", "X_U8", "V_A3", "U_E3"], thorough=["U_S4", "X_V", "X_U16"])
+     + asg("canaries outside the target unchanged after assign_in_place (Ok or Err)"))
+
+# ---------------------------------------------------------------- portable scalars
+INTS = ["le_u16", "le_u32", "le_u64", "le_i16", "le_i32", "le_i64", "be_u16", "be_u32", "be_u64", "be_i16", "be_i32", "be_i64"]
+prop("C16", "portable scalars",
+     "For all 12 portable integers, 4 floats and Bool, at full width (every value / every bit pattern): size, alignment 1, stored byte sequence == to_{le,be}_bytes, lossless round trip (floats by to_bits, NaN payloads included), equality == byte equality, Ord/PartialOrd, zero/one/min/max, to_u64/to_i64/to_usize, from_u64/from_i64/from_usize, NumCast, add/sub/neg/abs/signum at full width; mul/div/rem with operands below 256 x 128.",
+     ["mul/div/rem with operands >= 256 (full-width multipliers/dividers do not finish under bit-blasting; the operator bodies are one macro for all types)",
+      "overflowing operands (the native operator's own panic)", "from_str_radix, Display/Debug, serde", "f64 arithmetic; float mul/div/rem"],
+     [H("port::%s::%s" % (t, f), 300, 6, "every value of the native type" if f != "muldiv" else "operands |x| < 256, |y| < 128", "portable %s vs native" % t)
+      for t in INTS for f in ("repr", "addsub", "muldiv")]
+     + [H("port::%s::repr" % t, 300, 6, "every bit pattern", "portable float vs native") for t in ("le_f32", "le_f64", "be_f32", "be_f64")]
+     + [H("port::f32_arith::le_addsub", 300, 6, "every pair of f32 bit patterns", "Add/Sub/AddAssign bit-exact"),
+        H("port::f32_arith::be_addsub", 300, 6, "every pair of f32 bit patterns", "Add/Sub bit-exact"),
+        H("port::bool_::repr", 120, 4, "all 256 bytes, all bool pairs", "Bool validation, representation, operators")])
